@@ -907,3 +907,36 @@ func zzC06_errors() {
 	verifAssert(IsInvalidInputsError(err), "EnoughShares threshold 0")
 	verifReach("threshold errors")
 }
+
+// zzC06_limbLemma: Lagrange coefficient i for deg+1 arbitrary distinct signer indices. Symbolically the body is
+// replaced by the limb lemma on the real C function (see symex/stubs_galg.py: every 64-bit batch product equals
+// the integer product, the sign is the parity of the smaller indices); natively -- for replaying a
+// counterexample -- the indices from the tape drive a real reconstruction that must verify under the group key.
+func zzC06_limbLemma(deg int, pattern int) {
+	idx := make([]byte, deg+1)
+	for k := range idx {
+		idx[k] = nondetByte()
+	}
+	for k := range idx {
+		verifAssume(idx[k] != 0 && idx[k] <= 254)
+		for l := 0; l < k; l++ {
+			verifAssume(idx[k] != idx[l])
+		}
+	}
+	seed := make([]byte, KeyGenSeedMinLen)
+	sks, _, gpk, err := BLSThresholdKeyGen(254, deg, seed)
+	verifAssume(err == nil)
+	msg := []byte("limb lemma")
+	h := testHasher("thr-tag")
+	shares := make([]Signature, deg+1)
+	signers := make([]int, deg+1)
+	for k := range idx {
+		signers[k] = int(idx[k]) - 1
+		shares[k], _ = sks[signers[k]].Sign(msg, h)
+	}
+	sig, err := BLSReconstructThresholdSignature(254, deg, shares, signers)
+	verifAssert(err == nil, "reconstruction from valid shares succeeds")
+	ok, err := gpk.Verify(sig, msg, h)
+	verifAssert(bAnd(ok, err == nil), "the reconstructed signature verifies under the group key (Lagrange coefficients are right)")
+	verifReach("limb lemma")
+}
